@@ -165,6 +165,13 @@ func (ex *Exec) callFunction(fr *frame, fn *ssa.Function, args []Val, bind []Val
 			}
 		}
 	}
+	// a store-range iterator running the caller's callback: verified against the caller's inductive
+	// invariant (for any number of elements) where the function under verification states one
+	if ct := ex.Cfg.Contracts[fn]; ct != nil && ct.Iterates != "" && ex.TopCt != nil && ex.TopCt.CallbackInvs != nil && fr != nil && fr.fn == ex.TopFn {
+		if inv := ex.TopCt.CallbackInvs[FuncKey(fn)]; inv != nil {
+			return ex.callbackLoop(fr, fn, ct, inv, args)
+		}
+	}
 	if ex.inSpec == 0 || true {
 		if ct := ex.Cfg.Contracts[fn]; ct != nil && ex.Cfg.Modular[fn] && ex.TopFn != fn && !(ct.InlineOwn && ex.TopFn != nil && sameModule(ex.TopFn, fn)) && modularHere(ct, ex.TopFn) {
 			return ex.applyContract(fr, fn, ct, args, ins)
@@ -706,4 +713,137 @@ func modularHere(ct *Contract, top *ssa.Function) bool {
 		}
 	}
 	return false
+}
+
+
+// callbackLoop: fn calls the function value handed in as its `iterates` parameter once per element of
+// a store range and writes nothing itself. With an invariant I stated by the function under
+// verification: I is an obligation before the loop; then everything the callback may write (inferred
+// frame, captured variables) is made arbitrary and I assumed; on one forked path the callback runs once
+// for an arbitrary element and I is an obligation again (that path ends there); the other path goes on
+// after the loop knowing I. Sound for every number of iterations, early stop included.
+func (ex *Exec) callbackLoop(fr *frame, fn *ssa.Function, ct *Contract, inv *Clause, args []Val) Val {
+	idx := -1
+	for i, p := range fn.Params {
+		if p.Name() == ct.Iterates {
+			idx = i
+		}
+	}
+	if idx < 0 {
+		ex.abort("iterates: %s has no parameter %s", fn, ct.Iterates)
+	}
+	cl, ok := ex.force(args[idx]).(*ClosureV)
+	if !ok {
+		ex.abort("iterates: the callback handed to %s is not a function literal", fn)
+	}
+	ev := ex.TopEv
+	bind := func() {
+		for i, fv := range cl.Fn.FreeVars {
+			if i >= len(cl.Bind) {
+				break
+			}
+			if p, ok := cl.Bind[i].(*PtrV); ok && p.C != nil {
+				ev.vars[fv.Name()] = tval{p.C.V, p.T}
+			} else {
+				ev.vars[fv.Name()] = tval{cl.Bind[i], fv.Type()}
+			}
+		}
+	}
+	name := ex.TopKey + "/invariant:" + inv.Name
+	bind()
+	ex.oblige(name+"/holds-before-the-loop", ev.bool(inv.Expr), "")
+	w := ex.findWorld(args)
+	if w != nil && ex.Cfg.FuncFrame != nil {
+		ex.applyEffects(w, ex.Cfg.FuncFrame(cl.Fn))
+	} else if w != nil {
+		ex.havocEverything(w)
+	}
+	written := writtenFreeVars(cl.Fn)
+	for i := range cl.Fn.FreeVars {
+		if i >= len(cl.Bind) {
+			break
+		}
+		if !written[cl.Fn.FreeVars[i]] {
+			continue // read-only capture (context, parameters): keeps its value
+		}
+		if p, ok := cl.Bind[i].(*PtrV); ok && p.C != nil {
+			p.C.V = ex.symbolic(p.T, Namer{Prefix: ex.site("loop!" + cl.Fn.FreeVars[i].Name())})
+		}
+	}
+	exit := ex.TopCt.CallbackExits[FuncKey(fn)]
+	bind()
+	if ex.branch(smt.Var(ex.site("loop!iteration"), smt.Bool)) {
+		ex.assume(ev.bool(inv.Expr))
+		var elems []Val
+		for i, p := range cl.Fn.Params {
+			elems = append(elems, ex.symbolic(p.Type(), Namer{Prefix: ex.site(fmt.Sprintf("loop!elem%d", i))}))
+		}
+		res := ex.callFunction(fr, cl.Fn, elems, cl.Bind, nil, nil)
+		stop, isTerm := res.(*smt.Term)
+		if !isTerm || stop.Sort != smt.Bool {
+			ex.abort("iterates: the callback of %s does not answer a boolean", fn)
+		}
+		bind()
+		if exit == nil {
+			ex.oblige(name+"/kept-by-an-iteration", ev.bool(inv.Expr), "")
+		} else {
+			ex.oblige(name+"/kept-by-an-iteration", smt.Implies(smt.Not(stop), ev.bool(inv.Expr)), "")
+			ex.oblige(ex.TopKey+"/invariant:"+exit.Name+"/holds-when-the-callback-stops-the-loop", smt.Implies(stop, ev.bool(exit.Expr)), "")
+		}
+		panic(loopStepDone{})
+	}
+	if exit == nil {
+		ex.assume(ev.bool(inv.Expr))
+	} else {
+		ex.assume(smt.Or(ev.bool(inv.Expr), ev.bool(exit.Expr)))
+	}
+	ex.UsedContracts[FuncKey(fn)+" (iterates: the caller's callback-invariant stands for the loop)"] = true
+	return nil
+}
+
+
+// writtenFreeVars: the captured variables a function literal may assign (a store through the captured
+// address or an address derived from it, or the address escaping into a call or a nested literal).
+func writtenFreeVars(fn *ssa.Function) map[*ssa.FreeVar]bool {
+	out := map[*ssa.FreeVar]bool{}
+	var root func(v ssa.Value, depth int) *ssa.FreeVar
+	root = func(v ssa.Value, depth int) *ssa.FreeVar {
+		if depth > 8 {
+			return nil
+		}
+		switch x := v.(type) {
+		case *ssa.FreeVar:
+			return x
+		case *ssa.FieldAddr:
+			return root(x.X, depth+1)
+		case *ssa.IndexAddr:
+			return root(x.X, depth+1)
+		}
+		return nil
+	}
+	for _, b := range fn.Blocks {
+		for _, ins := range b.Instrs {
+			switch x := ins.(type) {
+			case *ssa.Store:
+				if fv := root(x.Addr, 0); fv != nil {
+					out[fv] = true
+				}
+			case *ssa.MapUpdate:
+				// a captured map is updated in place: the map value itself is opaque to the executor
+			case ssa.CallInstruction:
+				for _, a := range x.Common().Args {
+					if fv := root(a, 0); fv != nil {
+						out[fv] = true
+					}
+				}
+			case *ssa.MakeClosure:
+				for _, a := range x.Bindings {
+					if fv := root(a, 0); fv != nil {
+						out[fv] = true
+					}
+				}
+			}
+		}
+	}
+	return out
 }
